@@ -665,6 +665,8 @@ class Spec(object):
 
     def ev_UnaryOp(self, e, env, g):
         v = self.ev(e.operand, env, g)
+        if isinstance(v, Instance) and hasattr(v, "prim") and not isinstance(e.op, ast.Not):
+            v = v.prim  # -x, +x, ~x of an int-subclass instance act on its value
         if isinstance(e.op, ast.USub):
             try:
                 return mul(v, -1) if is_sym(v) else -v
@@ -1242,6 +1244,8 @@ class Spec(object):
         if f is None:
             self.effect("print-or-open", tuple(args), tuple(sorted(kw.items())), node=node)
             return Top("print/open")
+        if f is dict and not args:
+            return dict(kw)  # dict(a=x, b=y): a concrete mapping whose values may be symbolic
         if f is struct.unpack or name == "unpack" and getattr(f, "__module__", "") in ("_struct", "struct"):
             return self.model_unpack(args, node)
         if f is struct.iter_unpack and len(args) == 2 and not is_sym(args[0]) and is_sym(args[1]):
